@@ -9,7 +9,8 @@ import BrushVerif.Model.Expand
 * `splitKeepEmpty`: POSIX for an IFS made of non-white-space characters only: every IFS character terminates a
   field, empty fields are kept (a trailing delimiter does not open another field).
 * `specExpandB`: bash's order of word expansions — brace expansion first, producing *words* that are then
-  expanded separately (each through parameter/command/arithmetic expansion, field splitting, pathname
+  expanded separately (each through tilde — a tilde-prefix at the start of *each* generated word —,
+  parameter/command/arithmetic expansion, field splitting, pathname
   expansion); `"$*"` joins with the first IFS character, with nothing when IFS is empty.
 -/
 namespace BrushVerif.WordExp
@@ -48,6 +49,30 @@ def seqAppend : List (Option (List Str)) → Option (List Str)
 
 open BrushVerif.Expand in
 def specExpandB (env : Env) (opts : Opts) (names : List Str) (w : BWord) : Option (List Str) :=
-  seqAppend ((braceProduct w).map (fullExpand { env with bashStarJoin := true } opts names))
+  seqAppend ((braceProduct w).map fun x =>
+    fullExpand { env with bashStarJoin := true } opts names (tildeFix tildeTermsBash x))
+
+/-! ## the domain in which brush's word expansion is proved to agree with `specExpandB` (`Props/C05.lean`) -/
+
+open BrushVerif.Expand in
+/-- with brace expressions: the first generated word is not `~` alone and no later one starts with a tilde-prefix -/
+def laterWordsOk : List Word → Prop
+  | [] => True
+  | x :: r => x ≠ [WP.plain (.base .tilde)] ∧ ∀ y ∈ r, tildeFix tildeTermsBash y = untildeAll y
+
+open BrushVerif.Expand in
+instance (l : List Word) : Decidable (laterWordsOk l) := by
+  cases l <;> (unfold laterWordsOk; infer_instance)
+
+open BrushVerif.Expand in
+/-- which conjuncts of the guard fail (reported by the driver next to every result):
+`e` IFS empty, `s` brace expression and no space in IFS, `n` an empty generated word, `t` a tilde-prefix that the
+joined text loses (or that brush and bash delimit differently) -/
+def domainFlags (env : Env) (w : BWord) : Str :=
+  (if env.ifsStr = [] then ['e'] else []) ++
+  (if hasBraces w = true ∧ ' ' ∉ env.ifsStr then ['s'] else []) ++
+  (if hasBraces w = true ∧ ¬ (∀ x ∈ braceProduct w, x ≠ []) then ['n'] else []) ++
+  (if (∀ x ∈ braceProduct w, tildeFix tildeTermsBrush x = tildeFix tildeTermsBash x) ∧
+      (hasBraces w = true → laterWordsOk (braceProduct w)) then [] else ['t'])
 
 end BrushVerif.WordExp
